@@ -33,8 +33,8 @@ For each patch also write a **demonstration**: a small stand-alone Python script
 ## How to work
 
 * Python: `/venv/bin/python` (3.12). Run tests with e.g. `cd {wt} && /venv/bin/python -m pytest -q -p no:cacheprovider --no-cov -x -n 4 pydra/engine/tests/test_job.py` (pytest-xdist is available; the full suite takes ~10 minutes with `-n 8`, so first run the test modules closest to your change, then as much more of the suite as you reasonably can; at minimum the whole `pydra/engine/tests` and `pydra/compose/tests/test_workflow_run.py` for engine changes, or the directory of tests next to the code you changed). A few tests fail already on the unchanged tree for lack of network (test_audit provenance tests, test_typing_cast, test_hash_file, test_copyfile_workflow_conflicting_filenames, a few numpy/docs ones) -- ignore those.
-* Start from a clean tree for each patch: `git -C {wt} stash` / `git -C {wt} checkout -- .` between the two.
-* Verify each demo both ways (fails with the patch, passes without: `git -C {wt} stash; run; git -C {wt} stash pop`).
+* Start from a clean tree for each patch: `git -C {wt} diff > <file>; git -C {wt} checkout -- .` between the two (do NOT use `git stash`: the stash is shared by every worktree of the repository and other agents work in sibling worktrees).
+* Verify each demo both ways (fails with the patch, passes without: `git -C {wt} diff > p.diff; git -C {wt} checkout -- .; run; git -C {wt} apply p.diff` -- never `git stash`).
 * Save your results under `{out}/1/` and `{out}/2/` (create the directories): `patch.diff` (output of `git -C {wt} diff` with ONLY the source change, not the demo), `demo.py`, and `notes.md` (what the change is, why it breaks the property, what it needs in order to manifest, exactly which test commands you ran and their pass/fail counts).
 * Leave the worktree clean at the end (`git -C {wt} checkout -- .`; remove untracked files you created in it).
 
